@@ -1,0 +1,42 @@
+//go:build verif
+
+package shutterservice
+
+import (
+	"context"
+
+	"github.com/jackc/pgx/v4/pgxpool"
+
+	"github.com/shutter-network/rolling-shutter/rolling-shutter/keyper/epochkghandler"
+	"github.com/shutter-network/rolling-shutter/rolling-shutter/medley/broker"
+	syncevent "github.com/shutter-network/rolling-shutter/rolling-shutter/medley/chainsync/event"
+	"github.com/shutter-network/rolling-shutter/rolling-shutter/p2p"
+)
+
+// VerifNewHandlers returns the flavour's message handlers the way Start registers them.
+func VerifNewHandlers(dbpool *pgxpool.Pool) []p2p.MessageHandler {
+	return []p2p.MessageHandler{&DecryptionKeySharesHandler{dbpool}, &DecryptionKeysHandler{dbpool}}
+}
+
+// VerifNewKeyper returns a Keyper with only the fields set that block processing needs.
+// Either syncer may be nil.
+func VerifNewKeyper(
+	c *Config,
+	dbpool *pgxpool.Pool,
+	triggers chan *broker.Event[*epochkghandler.DecryptionTrigger],
+	registrySyncer *RegistrySyncer,
+	multiEventSyncer *MultiEventSyncer,
+) *Keyper {
+	return &Keyper{
+		config:                   c,
+		dbpool:                   dbpool,
+		decryptionTriggerChannel: triggers,
+		registrySyncer:           registrySyncer,
+		multiEventSyncer:         multiEventSyncer,
+	}
+}
+
+// VerifProcessNewBlock calls processNewBlock.
+func (kpr *Keyper) VerifProcessNewBlock(ctx context.Context, ev *syncevent.LatestBlock) error {
+	return kpr.processNewBlock(ctx, ev)
+}
